@@ -47,6 +47,9 @@ class Opts:
 def gen_rank(rng: random.Random, o: Opts, rank: int = 0) -> List[Dict[str, Any]]:
     q = o.grid
     evs: List[Dict[str, Any]] = []
+    # a few run-specific operator names: they change the iteration order of the symbol set, hence which symbol gets id 0
+    extra_ops = [f"aten::op_{rng.randint(0, 10**6)}" for _ in range(rng.randint(0, 3))]
+    op_names = OP_NAMES + extra_ops
     corr = [100 + 10_000 * rank]
     stream_free = {7 + s: o.base for s in range(o.n_streams)}
     kernels: List[Dict[str, Any]] = []
@@ -93,14 +96,14 @@ def gen_rank(rng: random.Random, o: Opts, rank: int = 0) -> List[Dict[str, Any]]
                 t += q * rng.randint(0, 2)
                 continue
             if rng.random() < o.p_zero:
-                out.append(synth.host_op(rng.choice(OP_NAMES), t, 0, tid=tid))
+                out.append(synth.host_op(rng.choice(op_names), t, 0, tid=tid))
                 if rng.random() < 0.5:
                     t += q
                 continue
             d = min(q * rng.randint(1, 6), t1 - t)
             if d <= 0:
                 break
-            op = synth.host_op(rng.choice(OP_NAMES), t, d, tid=tid)
+            op = synth.host_op(rng.choice(op_names), t, d, tid=tid)
             out.append(op)
             if depth < o.max_depth and rng.random() < 0.6:
                 # children may share start / end with the parent
@@ -111,7 +114,7 @@ def gen_rank(rng: random.Random, o: Opts, rank: int = 0) -> List[Dict[str, Any]]
             elif rng.random() < o.p_launch:
                 maybe_launch(t, t + d, tid, out)
             if rng.random() < 0.2 and depth < o.max_depth:
-                out.append(synth.host_op(rng.choice(OP_NAMES), t, d, tid=tid))  # identical span, later in file
+                out.append(synth.host_op(rng.choice(op_names), t, d, tid=tid))  # identical span, later in file
             t += d  # touching siblings are frequent
 
     t = o.base
